@@ -18,8 +18,54 @@ def unit_obj(name):
     return O.astropy_flux_unit(name)
 
 
+def wl_arg(qu):
+    """the `wavelengths` argument of a query: None, Angstrom numbers, or a nanometre Quantity"""
+    if qu.get('wl') is None:
+        return None
+    import astropy.units as u
+    w = np.array([O.fl(v) for v in qu['wl']])
+    return w * u.nm if qu.get('wl_unit') == 'nm' else w
+
+
+def wl_angstrom(qu):
+    """the Angstrom values the implementation integrates on (exact floats)"""
+    if qu.get('wl') is None:
+        return None
+    import astropy.units as u
+    from synphot import units
+    return units.validate_quantity(wl_arg(qu), u.AA, equivalencies=u.spectral()).value
+
+
+def run_query(obs, qu, vega=None):
+    if qu['q'] == 'effstim':
+        kw = {}
+        if qu.get('area') is not None:
+            kw['area'] = O.fl(qu['area'])
+        if qu.get('wl') is not None:
+            kw['wavelengths'] = wl_arg(qu)
+        if qu.get('vega') is not None:
+            kw['vegaspec'] = vega if vega is not None else O.build_prim(qu['vega'])
+        return guarded(lambda: obs.effstim(unit_obj(qu['unit_name']), **kw).value)
+    return guarded(lambda: obs.effective_wavelength(binned=qu['binned'],
+                                                    mode='efflerg' if qu['erg'] else 'efflphot').value)
+
+
+def efflam_parts(obs, qu):
+    """numerator / denominator of the defining quotient, formed independently on the implementation's samples"""
+    from scipy.integrate import trapezoid
+    fu = 'flam' if qu['erg'] else 'photlam'
+    if qu['binned']:
+        x = obs.binset.value
+        y = obs.sample_binned(flux_unit=fu).value
+    else:
+        x = obs.waveset.value
+        y = obs(x, flux_unit=fu).value
+    return float(trapezoid(y * x ** 2, x=x)), float(trapezoid(y * x, x=x))
+
+
 def impl_call(case):
     from synphot.config import conf
+    from scipy.integrate import trapezoid
 
     def f():
         outs = []
@@ -27,41 +73,51 @@ def impl_call(case):
         with conf.set_temp('default_integrator', case.get('integrator', 'trapezoid')):
             obs = c08.build_obs(case)
             for qu in case['queries']:
-                if qu['q'] == 'effstim':
-                    kw = {}
-                    if qu.get('area') is not None:
-                        kw['area'] = O.fl(qu['area'])
-                    outs.append(guarded(lambda: obs.effstim(unit_obj(qu['unit_name']), **kw).value))
-                else:
-                    outs.append(guarded(lambda: obs.effective_wavelength(binned=qu['binned'],
-                                                                       mode='efflerg' if qu['erg'] else 'efflphot').value))
+                outs.append(run_query(obs, qu))
             # oracle data (implementation alone)
             w = obs.waveset.value
             flam = obs(w, flux_unit='flam').value
             bw = obs.bandpass.waveset
             xb = w if bw is None else bw.value
             yb = obs.bandpass(xb).value
-            from scipy.integrate import trapezoid
             extra['flam_def'] = abs(trapezoid(w * flam, x=w)) / abs(trapezoid(xb * yb, x=xb))
             extra['pivot'] = float(obs.bandpass.pivot().value)
             extra['wrange'] = [float(w.min()), float(w.max())]
             extra['brange'] = [float(obs.binset.value.min()), float(obs.binset.value.max())]
             extra['nonneg'] = bool(np.all(flam >= 0)) and bool(np.all(obs.binflux.value >= 0))
-            extra['efflam_def'] = float(abs(trapezoid(flam * w ** 2, x=w) / trapezoid(flam * w, x=w))) if trapezoid(flam * w, x=w) != 0 else None
+            extra['efflam_parts'] = [guarded(lambda: efflam_parts(obs, qu)) if qu['q'] == 'efflam' else None
+                                     for qu in case['queries']]
+            # explicit sampling wavelengths: the defining integrals and the pivot on those wavelengths
+            xw = []
+            for qu in case['queries']:
+                if qu['q'] != 'effstim' or (qu.get('wl') is None and qu.get('vega') is None):
+                    xw.append(None)
+                    continue
+
+                def on_grid():
+                    W = wl_angstrom(qu) if qu.get('wl') is not None else w
+                    fl_ = obs(W, flux_unit='flam').value
+                    P = obs.bandpass(W).value
+                    d = {'flam_def': float(abs(trapezoid(W * fl_, x=W)) / abs(trapezoid(W * P, x=W))),
+                         'pivot': float(np.sqrt(abs(trapezoid(P * W, x=W) / trapezoid(P / W, x=W)))),
+                         'obs_int': float(abs(trapezoid(np.abs(obs(W).value), x=W)))}
+                    if qu.get('vega') is not None:
+                        vb = O.build_prim(qu['vega']) * obs.bandpass
+                        Wv = W if qu.get('wl') is not None else vb.waveset.value
+                        d['vega_int'] = float(abs(trapezoid(np.abs(vb(Wv).value), x=Wv)))
+                    return d
+                xw.append(guarded(on_grid))
+            extra['on_grid'] = xw
         other = 'analytical' if case.get('integrator', 'trapezoid') == 'trapezoid' else 'trapezoid'
         with conf.set_temp('default_integrator', other):
             obs2 = c08.build_obs(case)
-            extra['other_integrator'] = [
-                guarded(lambda: obs2.effstim(unit_obj(qu['unit_name'])).value) if qu['q'] == 'effstim' and qu.get('area') is None
-                else guarded(lambda: obs2.effective_wavelength(binned=qu['binned'],
-                                                               mode='efflerg' if qu['erg'] else 'efflphot').value) if qu['q'] == 'efflam'
-                else None for qu in case['queries']]
+            extra['other_integrator'] = [run_query(obs2, qu) if qu.get('area') is None else None for qu in case['queries']]
             extra['other_pivot'] = guarded(lambda: float(obs2.bandpass.pivot().value))
         if case.get('k') is not None:
             k = O.fl(case['k'])
             obs3 = c08.build_obs(case, scale=k)
-            extra['scaled'] = [guarded(lambda: obs3.effstim(unit_obj(qu['unit_name'])).value) if qu['q'] == 'effstim' and qu.get('area') is None
-                               else None for qu in case['queries']]
+            extra['scaled'] = [run_query(obs3, qu) if qu.get('area') is None and qu.get('vega') is None else None
+                               for qu in case['queries']]
         return {'warned': 'PartialOverlap' in obs.warnings, 'queries': outs, '_x': extra}
     return guarded(f)
 
@@ -73,7 +129,9 @@ def model_case(case):
     qs_ = []
     for qu in case['queries']:
         if qu['q'] == 'effstim':
-            qs_.append({'q': 'effstim', 'unit': O.model_flux_unit(qu['unit_name']), 'wl': None, 'area': qu.get('area'), 'vega': None})
+            wl = None if qu.get('wl') is None else qs(wl_angstrom(qu))
+            qs_.append({'q': 'effstim', 'unit': O.model_flux_unit(qu['unit_name']), 'wl': wl, 'area': qu.get('area'),
+                        'vega': qu.get('vega')})
         else:
             qs_.append({'q': 'efflam', 'binned': qu['binned'], 'wl': None, 'erg': qu['erg']})
     c['queries'] = qs_
@@ -123,35 +181,62 @@ def oracle(rep, case, out):
     o = out['ok']
     x = o['_x']
     flat = flat_expect(case)
+    kk = O.fl(case['k']) if case.get('k') is not None else None
     for i, (qu, r) in enumerate(zip(case['queries'], o['queries'])):
         if qu['q'] == 'effstim':
             u = qu['unit_name']
+            how = 'explicit' if qu.get('wl') is not None else 'native'
+            g = {'flam_def': x['flam_def'], 'pivot': x['pivot']}
+            if x['on_grid'][i] is not None:
+                if 'err' in x['on_grid'][i]:
+                    continue        # the samples themselves could not be formed: model comparison only
+                g = x['on_grid'][i]['ok']
+            if u == 'vegamag':
+                if 'err' in r:
+                    if r['err'] in ('SynphotError', 'NaN') and not (g.get('obs_int', 0) > 0 and g.get('vega_int', 0) > 0):
+                        continue
+                    rep.oracle_fail('effstim:vegamag:%s:%s' % (how, r['err']), 'effstim raised %s' % r['err'], case, r)
+                    continue
+                if g.get('obs_int', 0) > 0 and g.get('vega_int', 0) > 0:
+                    want = 2.5 * (math.log10(g['vega_int']) - math.log10(g['obs_int']))
+                    if abs(r['ok'] - want) > 1e-9 * max(1.0, abs(want)):
+                        rep.oracle_fail('effstim:vegamag:%s:definition' % how,
+                                        'VEGAMAG=%r, 2.5 log10 of the two integrals on the sampling wavelengths gives %r' % (r['ok'], want), case, r)
+                if qu.get('vega_is_src') and not o['warned'] and abs(r['ok']) > 1e-9:
+                    rep.oracle_fail('effstim:vegamag:%s:vega_itself_not_zero' % how,
+                                    'the Vega spectrum observed through the band has VEGAMAG %r' % r['ok'], case, r)
+                oi = x['other_integrator'][i]
+                if oi is not None and ('err' in oi or oi['ok'] != r['ok']):
+                    rep.oracle_fail('effstim:vegamag:integrator_dependent', 'default_integrator changes the result: %s vs %r' % (oi, r['ok']), case, r)
+                continue
             if 'err' in r:
-                if r['err'] in ('SynphotError', 'NaN') and not (x['flam_def'] > 0):
+                if r['err'] in ('SynphotError', 'NaN') and not (g['flam_def'] > 0):
                     continue
                 rep.oracle_fail('effstim:%s:%s' % (u, r['err']), 'effstim raised %s' % r['err'], case, r)
                 continue
-            want = from_flam(x['flam_def'], u, x['pivot'])
-            tol = 1e-9 * abs(want) + (1e-9 if u in MAGS else 0)
-            if abs(r['ok'] - want) > tol:
-                rep.oracle_fail('effstim:%s:definition' % u, 'effstim=%r, defining integrals converted at the pivot give %r' % (r['ok'], want), case, r)
+            want = from_flam(g['flam_def'], u, g['pivot']) if g['flam_def'] > 0 and g['pivot'] > 0 else None
+            if want is not None and math.isfinite(want):
+                tol = 1e-9 * abs(want) + (1e-9 if u in MAGS else 0)
+                if abs(r['ok'] - want) > tol:
+                    rep.oracle_fail('effstim:%s:definition%s' % (u, '' if how == 'native' else ':explicit_wavelengths'),
+                                    'effstim=%r, defining integrals converted at the pivot (on the same wavelengths) give %r' % (r['ok'], want), case, r)
             if flat and flat[0] == u:
                 tolf = 1e-9 * abs(flat[1]) + (1e-9 if u in MAGS else 0)
                 if abs(r['ok'] - flat[1]) > tolf:
-                    rep.oracle_fail('effstim:%s:flat_spectrum' % u, 'flat spectrum at %r has effstim %r' % (flat[1], r['ok']), case, r)
+                    rep.oracle_fail('effstim:%s:flat_spectrum%s' % (u, '' if how == 'native' else ':explicit_wavelengths'),
+                                    'flat spectrum at %r has effstim %r' % (flat[1], r['ok']), case, r)
             oi = x['other_integrator'][i]
             if oi is not None and ('err' in oi or oi['ok'] != r['ok']):
                 rep.oracle_fail('effstim:%s:integrator_dependent' % u, 'default_integrator changes the result: %s vs %r' % (oi, r['ok']), case, r)
-            if case.get('k') is not None and x.get('scaled') and x['scaled'][i] is not None:
-                k = O.fl(case['k'])
+            if kk is not None and x.get('scaled') and x['scaled'][i] is not None:
                 s = x['scaled'][i]
                 if 'err' in s:
                     rep.oracle_fail('effstim:%s:scaled:%s' % (u, s['err']), 'scaled source failed', case, s)
                 elif u in MAGS:
-                    if abs(s['ok'] - (r['ok'] - 2.5 * math.log10(k))) > 1e-9:
-                        rep.oracle_fail('effstim:%s:scale_law' % u, 'x%r shifts the magnitude by %r' % (k, s['ok'] - r['ok']), case, s)
-                elif abs(s['ok'] - k * r['ok']) > 1e-9 * abs(k * r['ok']):
-                    rep.oracle_fail('effstim:%s:scale_law' % u, 'x%r gives %r, expected %r' % (k, s['ok'], k * r['ok']), case, s)
+                    if abs(s['ok'] - (r['ok'] - 2.5 * math.log10(kk))) > 1e-9 * max(1.0, abs(r['ok'])):
+                        rep.oracle_fail('effstim:%s:scale_law' % u, 'x%r shifts the magnitude by %r' % (kk, s['ok'] - r['ok']), case, s)
+                elif abs(s['ok'] - kk * r['ok']) > 1e-9 * abs(kk * r['ok']):
+                    rep.oracle_fail('effstim:%s:scale_law' % u, 'x%r gives %r, expected %r' % (kk, s['ok'], kk * r['ok']), case, s)
         else:
             if 'err' in r:
                 if r['err'] in ('InterpolationNotAllowed',):
@@ -161,23 +246,86 @@ def oracle(rep, case, out):
             oi = x['other_integrator'][i]
             if oi is not None and ('err' in oi or oi['ok'] != r['ok']):
                 rep.oracle_fail('efflam:integrator_dependent', 'default_integrator changes the effective wavelength: %s vs %r' % (oi, r['ok']), case, r)
+            parts = x['efflam_parts'][i]
+            den = None
+            if parts is not None and 'ok' in parts:
+                num, den = parts['ok']
+                if den == 0:
+                    if r['ok'] != 0:
+                        rep.oracle_fail('efflam:definition', 'zero denominator but effective wavelength %r' % r['ok'], case, r)
+                else:
+                    want = abs(num / den)
+                    if abs(r['ok'] - want) > 1e-9 * want:
+                        rep.oracle_fail('efflam:definition', 'effective wavelength %r, defining integrals give %r' % (r['ok'], want), case, r)
             lo, hi = x['brange'] if qu['binned'] else x['wrange']
-            if x['nonneg'] and r['ok'] != 0 and not (lo * (1 - 1e-9) <= r['ok'] <= hi * (1 + 1e-9)):
+            live = (den != 0) if den is not None else (r['ok'] != 0)
+            if x['nonneg'] and live and not (lo * (1 - 1e-9) <= r['ok'] <= hi * (1 + 1e-9)):
                 rep.oracle_fail('efflam:outside_range', 'effective wavelength %r outside [%r, %r]' % (r['ok'], lo, hi), case, r)
-            if not qu['binned'] and qu['erg'] and x['efflam_def'] is not None and abs(r['ok'] - x['efflam_def']) > 1e-9 * x['efflam_def']:
-                rep.oracle_fail('efflam:definition', 'effective wavelength %r, defining integrals give %r' % (r['ok'], x['efflam_def']), case, r)
+            if kk is not None and x.get('scaled') and x['scaled'][i] is not None:
+                s = x['scaled'][i]
+                if 'err' in s:
+                    rep.oracle_fail('efflam:scaled:%s' % s['err'], 'scaled source failed', case, s)
+                elif abs(s['ok'] - r['ok']) > 1e-9 * abs(r['ok']):
+                    rep.oracle_fail('efflam:scale_dependent', 'source x%r changes the effective wavelength from %r to %r' % (kk, r['ok'], s['ok']), case, s)
     op = x.get('other_pivot')
     if op is not None and not (x['pivot'] != x['pivot'] and op.get('err') == 'NaN') and ('err' in op or op['ok'] != x['pivot']):
         rep.oracle_fail('pivot:integrator_dependent', 'default_integrator changes the bandpass pivot: %s vs %r' % (op, x['pivot']), case, op)
-    # magnitude = -2.5 log10(linear) - zero point
-    res = {qu['unit_name']: r['ok'] for qu, r in zip(case['queries'], o['queries']) if qu['q'] == 'effstim' and 'ok' in r}
-    import astropy.units as u
-    if 'flam' in res and 'stmag' in res and res['flam'] > 0:
-        if abs(res['stmag'] - (-2.5 * math.log10(res['flam']) - 21.10)) > 1e-9:
-            rep.oracle_fail('effstim:stmag_vs_flam', 'STmag %r vs -2.5 log10(FLAM) - 21.10 = %r' % (res['stmag'], -2.5 * math.log10(res['flam']) - 21.1), case, res)
-    if 'fnu' in res and 'abmag' in res and res['fnu'] > 0:
-        if abs(res['abmag'] - (-2.5 * math.log10(res['fnu']) - 48.60)) > 1e-9:
-            rep.oracle_fail('effstim:abmag_vs_fnu', 'ABmag %r vs -2.5 log10(FNU) - 48.60' % res['abmag'], case, res)
+    # magnitude = -2.5 log10(linear) - zero point (same sampling wavelengths)
+    res = {}
+    for qu, r in zip(case['queries'], o['queries']):
+        if qu['q'] == 'effstim' and 'ok' in r:
+            res.setdefault((qu['unit_name'], None if qu.get('wl') is None else (tuple(qu['wl']), qu.get('wl_unit'))), r['ok'])
+    for (un, key), val in list(res.items()):
+        if un == 'stmag' and ('flam', key) in res and res[('flam', key)] > 0:
+            ref = -2.5 * math.log10(res[('flam', key)]) - 21.10
+            if abs(val - ref) > 1e-9 * max(1.0, abs(ref)):
+                rep.oracle_fail('effstim:stmag_vs_flam', 'STmag %r vs -2.5 log10(FLAM) - 21.10 = %r' % (val, ref), case, res[('flam', key)])
+        if un == 'abmag' and ('fnu', key) in res and res[('fnu', key)] > 0:
+            ref = -2.5 * math.log10(res[('fnu', key)]) - 48.60
+            if abs(val - ref) > 1e-9 * max(1.0, abs(ref)):
+                rep.oracle_fail('effstim:abmag_vs_fnu', 'ABmag %r vs -2.5 log10(FNU) - 48.60 = %r' % (val, ref), case, res[('fnu', key)])
+
+
+PIVOT_UNITS = ['fnu', 'jy', 'mjy', 'photlam', 'photnu', 'abmag']
+
+
+def scale_leaf(leaf, k):
+    """the same source, `k` (a power of two: exact in binary64 and in the model) times as bright"""
+    lf = dict(leaf)
+    if lf['leaf'] == 'empirical':
+        lf['vals'] = qs([unq(v) * k for v in lf['vals']])
+    elif lf['leaf'] == 'trapezoid':
+        lf['amp'] = q(unq(lf['amp']) * k)
+        lf['slope'] = q(unq(lf['slope']) * k)
+    elif lf['leaf'] == 'constflux' and lf['unit_name'] in ('stmag', 'abmag'):
+        return lf
+    else:
+        lf['amp'] = q(unq(lf['amp']) * k)
+    return lf
+
+
+def band_range(band):
+    lf = band['leaf']
+    if lf['leaf'] == 'empirical':
+        p = [unq(v) for v in lf['pts']]
+        return min(p), max(p)
+    return unq(lf['x0']) - unq(lf['width']) / 2, unq(lf['x0']) + unq(lf['width']) / 2
+
+
+def gen_grid(rng, band):
+    """explicit sampling wavelengths around the bandpass: coarse, ascending / descending, Angstrom numbers or nm"""
+    lo, hi = band_range(band)
+    span = hi - lo
+    lo2, hi2 = max(F(50), lo - span / 8), hi + span / 8
+    nm = rng.random() < 0.25
+    n = rng.randint(2, 9)
+    if nm:
+        g = sorted({O.dy(rng, float(lo2) / 10, float(hi2) / 10 + 1, 3) for _ in range(n)})
+    else:
+        g = sorted({O.dy(rng, float(lo2), float(hi2) + 1, 3) for _ in range(n)})
+    if rng.random() < 0.3:
+        g = g[::-1]
+    return qs(g), ('nm' if nm else 'AA_number')
 
 
 def gen_case(rng, K, nmax):
@@ -191,21 +339,51 @@ def gen_case(rng, K, nmax):
             src['leaf']['amp'] = '3/2'
     if band['leaf']['leaf'] == 'empirical' and all(unq(v) == 0 for v in band['leaf']['vals']):
         band['leaf']['vals'][0] = '1/2'
+    # brightness over many decades: the source itself 2^-120 .. 2^60 times as bright (seen by the model too) ...
+    e1 = rng.randint(-120, 60) if rng.random() < 0.5 else 0
+    if e1:
+        src = dict(src, leaf=scale_leaf(src['leaf'], F(2) ** e1))
     binset, unit, kind = c07.gen_binset(rng, nmax)
     if unit != 'AA_number' or kind == 'outside':
         binset = None
     c = {'op': 'obs', 'const': K, 'src': src, 'band': band, 'force': 'extrap',
-         'binset': None if binset is None else qs(sorted(binset)), '_kind': kind,
+         'binset': None if binset is None else qs(sorted(binset)), '_kind': kind, '_e1': e1,
          'integrator': rng.choice(['trapezoid', 'analytical']), 'queries': []}
     for u in rng.sample(UNITS, rng.randint(3, 6)):
         c['queries'].append({'q': 'effstim', 'unit_name': u})
     for u in ('flam', 'stmag', 'fnu', 'abmag'):
         if rng.random() < 0.5 and not any(qq.get('unit_name') == u for qq in c['queries']):
             c['queries'].append({'q': 'effstim', 'unit_name': u})
-    c['queries'].append({'q': 'efflam', 'binned': False, 'erg': True})
-    c['queries'].append({'q': 'efflam', 'binned': True, 'erg': rng.random() < 0.7})
+    # explicit sampling wavelengths (different from the native sets), mostly in the units converted at the pivot
     if rng.random() < 0.6:
-        c['k'] = q(F(2) ** rng.randint(-60, 60))
+        wl, wu = gen_grid(rng, band)
+        units_ = rng.sample(PIVOT_UNITS, rng.randint(1, 3))
+        if flat_expect(c) and flat_expect(c)[0] not in units_:
+            units_.append(flat_expect(c)[0])
+        if rng.random() < 0.4:
+            units_ += rng.sample(['flam', 'stmag', 'fnu', 'abmag'], 2)
+        for u in dict.fromkeys(units_):
+            c['queries'].append({'q': 'effstim', 'unit_name': u, 'wl': wl, 'wl_unit': wu})
+    if rng.random() < 0.35:
+        own = rng.random() < 0.4
+        if own:
+            vega = {k: v for k, v in src.items()}
+        elif rng.random() < 0.6:
+            vega = O.fill_ss({'prim': 'source', 'leaf': O.gen_table_leaf(rng, lo=800, hi=9500, nmax=10, nonneg=True, keep_neg=False)})
+        else:
+            vega = O.fill_ss({'prim': 'source', 'leaf': {'leaf': 'constflux', 'amp': q(O.dy(rng, 0.25, 8, 3)),
+                                                        'unit_name': rng.choice(['photlam', 'flam', 'fnu'])}})
+        qv = {'q': 'effstim', 'unit_name': 'vegamag', 'vega': vega, 'vega_is_src': own}
+        if rng.random() < 0.7:
+            qv['wl'], qv['wl_unit'] = gen_grid(rng, band)
+        c['queries'].append(qv)
+    for binned in (False, True):
+        ergs = [True, False] if rng.random() < 0.5 else [rng.random() < 0.7]
+        for erg in ergs:
+            c['queries'].append({'q': 'efflam', 'binned': binned, 'erg': erg})
+    # ... and the relation with `source * k`, k = 2^e2, total brightness still within 2^-120 .. 2^60
+    if rng.random() < 0.6:
+        c['k'] = q(F(2) ** rng.randint(max(-60, -120 - e1), min(60, 60 - e1)))
     return c
 
 
@@ -222,16 +400,19 @@ def run(rep):
         c['const'] = K
     cases += [gen_case(rng, K, 100 if thorough else 16) for _ in range(15000 if thorough else 900)]
     rep.rule = ('observations (table / constant-in-every-unit / box / trapezoid sources x table / box bandpasses, several binsets) '
-                'x effstim in FLAM, FNU, Jy, mJy, PHOTLAM, PHOTNU, STmag, ABmag x scale factors 2^-60..2^60 x both default_integrator '
-                'settings; effective wavelength binned/unbinned, efflerg/efflphot. Non-trivial: an observation was constructed and '
-                'at least one effective stimulus returned.')
+                'x effstim in FLAM, FNU, Jy, mJy, PHOTLAM, PHOTNU, STmag, ABmag on the native sets and on explicit coarse wavelength '
+                'grids (ascending / descending, Angstrom / nm), VEGAMAG with a Vega spectrum (native / explicit wavelengths) x source '
+                'brightness 2^-120..2^60 (in the source itself, seen by the model, and as source*k) x both default_integrator '
+                'settings; effective wavelength binned/unbinned, efflerg/efflphot at every brightness. Non-trivial: an observation '
+                'was constructed and at least one effective stimulus returned.')
 
     def tags(c, o):
-        t = ['outcome:' + (o.get('err') or 'ok'), 'integrator:' + c.get('integrator', 'trapezoid')]
+        t = ['outcome:' + (o.get('err') or 'ok'), 'integrator:' + c.get('integrator', 'trapezoid'),
+             'brightness:' + ('faint' if c.get('_e1', 0) < -40 else 'bright' if c.get('_e1', 0) > 20 else 'mid')]
         if 'ok' in o:
             for qu, r in zip(c['queries'], o['ok']['queries']):
                 if qu['q'] == 'effstim':
-                    t.append('unit:%s:%s' % (qu['unit_name'], r.get('err') or 'ok'))
+                    t.append('unit:%s:%s:%s' % (qu['unit_name'], 'explicit' if qu.get('wl') is not None else 'native', r.get('err') or 'ok'))
         return t
 
     def nontrivial(c, o):
